@@ -1,5 +1,6 @@
 import Lean.Data.Json
 import DEvo.Mut.Env
+import DEvo.Sig.Diff
 
 /-! JSON codecs of the driver protocol (not part of the verified library). -/
 
@@ -21,12 +22,19 @@ def strListList (j : Json) : Except String (List (List String)) := do
   let a ← j.getArr?
   a.toList.mapM strList
 
+/-- attribute values are JSON text, except `related_model`, which the model carries raw -/
+def unquote (v : String) : String :=
+  if v.startsWith "\"" && v.endsWith "\"" && v.length ≥ 2 then ((v.drop 1).dropEnd 1).toString else v
+
 def pairs (j : Json) : Except String (List (String × String)) := do
   let a ← j.getArr?
   a.toList.mapM (fun p => do
     let q ← p.getArr?
     match q.toList with
-    | [k, v] => do pure (← k.getStr?, ← v.getStr?)
+    | [k, v] => do
+      let k ← k.getStr?
+      let v ← v.getStr?
+      pure (k, if k == "related_model" then unquote v else v)
     | _ => throw "bad pair")
 
 def fieldOf (j : Json) : Except String FieldSig := do
@@ -63,7 +71,8 @@ def sigOf (j : Json) : Except String ProjectSig := do
 def jStrs (l : List String) : Json := Json.arr (l.map Json.str).toArray
 def jOpt (o : Option String) : Json := match o with | some s => Json.str s | none => Json.null
 def jPairs (l : List (String × String)) : Json :=
-  Json.arr (l.map (fun p => Json.arr #[Json.str p.1, Json.str p.2])).toArray
+  Json.arr (l.map (fun p => Json.arr #[Json.str p.1,
+    Json.str (if p.1 == "related_model" && p.2 != "null" then "\"" ++ p.2 ++ "\"" else p.2)])).toArray
 
 def fieldJ (f : FieldSig) : Json :=
   Json.mkObj [("name", f.name), ("type", f.ftype), ("attrs", jPairs f.attrs), ("related", jOpt f.related)]
@@ -147,5 +156,18 @@ def flagsOf (j : Json) : Flags :=
   match j.getObjVal? "flags" with
   | .ok f => { renameAppLabelFixed := (f.getObjValAs? Bool "rename_app_label_fixed").toOption.getD false }
   | .error _ => {}
+
+def modelDiffJ (d : ModelDiff) : Json :=
+  Json.mkObj [("added", jStrs d.added),
+    ("changed", Json.arr (d.changed.map (fun p => Json.arr #[Json.str p.1, jStrs p.2])).toArray),
+    ("deleted", jStrs d.deleted), ("meta_changed", jStrs d.metaChanged)]
+
+def appDiffJ (d : AppDiff) : Json :=
+  Json.mkObj [("changed", Json.arr (d.changed.map (fun p => Json.arr #[Json.str p.1, modelDiffJ p.2])).toArray),
+    ("deleted", jStrs d.deleted), ("meta_changed", jStrs d.metaChanged)]
+
+def projDiffJ (d : ProjDiff) : Json :=
+  Json.mkObj [("changed", Json.arr (d.changed.map (fun p => Json.arr #[Json.str p.1, appDiffJ p.2])).toArray),
+    ("deleted", Json.arr (d.deleted.map (fun p => Json.arr #[Json.str p.1, jStrs p.2])).toArray)]
 
 end Codec
